@@ -74,6 +74,38 @@ var entityForms = []accessForm{
 	}},
 }
 
+// keptPreloaded holds, per root node handed to the forms, the file node that the preload reifier
+// returned when every block was there (reset per entity)
+var keptPreloaded = map[ipld.Node]ipld.Node{}
+
+func init() {
+	// a long-lived file node obtained from the preload reifier while the store was complete, walked
+	// later with the entity selector and the consuming matcher: that walk is an entity access of its
+	// own, it fetches every block again (file nodes keep none) and reports what cannot be loaded now
+	entityForms = append(entityForms, accessForm{"entity-walk-from-kept-preloaded-file", func(ls *ipld.LinkSystem, raw ipld.Node) error {
+		kept := keptPreloaded[raw]
+		if kept == nil {
+			n, err := ls.KnownReifiers["unixfs-preload"](ipld.LinkContext{Ctx: bg}, raw, ls)
+			if err != nil {
+				return err
+			}
+			if n.Kind() != datamodel.Kind_Bytes {
+				return errFormNA
+			}
+			if _, isLB := n.(largeBytes); !isLB {
+				return errFormNA
+			}
+			keptPreloaded[raw] = n
+			kept = n
+		}
+		sel, err := selector.CompileSelector(unixfsnode.MatchUnixFSEntitySelector.Node())
+		if err != nil {
+			return fmt.Errorf("harness: selector does not compile: %w", err)
+		}
+		return progressFor(ls).WalkMatching(kept, sel, unixfsnode.BytesConsumingMatcher)
+	}})
+}
+
 var errFormNA = fmt.Errorf("access form does not apply to this entity")
 
 // entity describes what a preload/entity access must fetch.
@@ -150,6 +182,7 @@ func checkEntity(c *mon.Case, e *entity, faults bool) {
 	decoy.KnownReifiers["unixfs"] = func(linking.LinkContext, datamodel.Node, *linking.LinkSystem) (datamodel.Node, error) {
 		return nil, fmt.Errorf("decoy reifier")
 	}
+	keptPreloaded = map[ipld.Node]ipld.Node{}
 	for fi, form := range entityForms {
 		st := e.St.Clone()
 		st.Logging = true
@@ -383,7 +416,7 @@ func TestC06(t *testing.T) {
 				for _, b := range ent {
 					allowed[b.String()] = true
 				}
-				for ti, target := range []selbuilder.SelectorSpec{unixfsnode.MatchUnixFSPreloadSelector, unixfsnode.MatchUnixFSEntitySelector, unixfsnode.MatchUnixFSEntitySelector} {
+				for ti, target := range []selbuilder.SelectorSpec{unixfsnode.MatchUnixFSPreloadSelector, unixfsnode.MatchUnixFSEntitySelector, unixfsnode.MatchUnixFSEntitySelector, unixfsnode.MatchUnixFSEntitySelector} {
 					st := base.Clone()
 					st.Logging = true
 					ls := st.LinkSystem(true)
@@ -405,6 +438,11 @@ func TestC06(t *testing.T) {
 							}
 							prog.Cfg.StartAtPath = datamodel.NewPath(segs)
 							c.Count("resumed_walks", 1)
+						}
+						if ti == 3 {
+							// a walker told to follow every link at most once (each link on a path is met once)
+							prog.Cfg.LinkVisitOnlyOnce = true
+							c.Count("visit_once_walks", 1)
 						}
 						werr = prog.WalkMatching(raw, sel, unixfsnode.BytesConsumingMatcher)
 					})
